@@ -30,3 +30,56 @@ func TestProbeC02AudioTimeWithStart(t *testing.T) {
 		t.Fatalf("video %d, audio %d: both segments are listed as available and must be served", v, a)
 	}
 }
+
+// The MPD's startNumber + timeline must name the segment the server returns for that number.
+func TestProbeC02StartNrTimelineNumber(t *testing.T) {
+	cfg := ServerConfig{VodRoot: "testdata/assets", TimeoutS: 0, LogFormat: logging.LogDiscard}
+	_ = logging.InitSlog(cfg.LogLevel, cfg.LogFormat)
+	s, err := SetupServer(context.Background(), &cfg)
+	if err != nil {
+		t.Fatal(err)
+	}
+	asset, ok := s.assetMgr.findAsset("testpic_2s")
+	if !ok {
+		t.Fatal("asset")
+	}
+	nowMS := 100_000
+	for _, url := range []string{"/livesim2/segtimelinenr_1/snr_7/testpic_2s/Manifest.mpd", "/livesim2/periods_60/snr_7/testpic_2s/Manifest.mpd"} {
+		rc, err := processURLCfg(url, nowMS)
+		if err != nil {
+			t.Fatal(err)
+		}
+		mpd, err := LiveMPD(asset, "Manifest.mpd", rc, nil, nowMS)
+		if err != nil {
+			t.Fatal(err)
+		}
+		p := mpd.Periods[len(mpd.Periods)-1]
+		for _, as := range p.AdaptationSets {
+			if as.ContentType != "video" {
+				continue
+			}
+			st := as.SegmentTemplate
+			nr := uint32(1)
+			if st.StartNumber != nil {
+				nr = *st.StartNumber
+			}
+			var declared uint64
+			if st.SegmentTimeline != nil {
+				declared = *st.SegmentTimeline.S[0].T
+			} else {
+				pto := uint64(0)
+				if st.PresentationTimeOffset != nil {
+					pto = *st.PresentationTimeOffset
+				}
+				declared = pto
+			}
+			sm, err := findSegMetaFromNr(asset, asset.Reps["V300"], nr, rc, nowMS)
+			if err != nil {
+				t.Errorf("%s: number %d declared by the MPD is not served: %v", url, nr, err); continue
+			}
+			if declared*uint64(sm.timescale) != sm.newTime*uint64(st.GetTimescale()) {
+				t.Errorf("%s: MPD declares number %d at time %d, the server returns the segment at time %d", url, nr, declared, sm.newTime)
+			}
+		}
+	}
+}
